@@ -53,14 +53,26 @@ def plain_function(spec, name='f', register=False, globs=None, cache=True):
 _sig_cache = {}
 
 
-def sig_of(spec, name='f'):
+class T9(object):
+    """A class that is generic / has attributes only for the type checker."""
+
+
+def sig_of(spec, name='f', future=False):
     """Upgraded signature of a real function with this spec, sources pointing at that
-    function (through the public retrieval entry point)."""
+    function (through the public retrieval entry point).  future: compiled with
+    `from __future__ import annotations` in globals that bind T9 (annotations such as
+    T9[int], T9.only_in_stubs or Missing9 then cannot be evaluated)."""
     from sigtools import signatures
-    key = (spec, name)
+    key = (spec, name, future)
     s = _sig_cache.get(key)
     if s is None:
         if len(_sig_cache) > 50000:
             _sig_cache.clear()
-        s = _sig_cache[key] = signatures.signature(plain_function(spec, name))
+        if future:
+            import __future__
+            src = 'def %s(%s):\n    %s\n' % (name, universe.spec_text(spec), body_return_locals(spec, name))
+            fn = load(src, {'T9': T9}, register=False, flags=__future__.annotations.compiler_flag)[name]
+        else:
+            fn = plain_function(spec, name)
+        s = _sig_cache[key] = signatures.signature(fn)
     return s
